@@ -185,6 +185,7 @@ func (gw *inclusiveGateway) run(ctx context.Context, sender tracing.ISenderHandl
 }
 
 func (gw *inclusiveGateway) trySync() {
+	verifAt("or.trysync")
 	if !gw.synchronized && len(gw.arrived) >= len(gw.awaiting) {
 		// Have we got everybody?
 		matches := 0
@@ -311,6 +312,7 @@ func (tracker *flowTracker) run() {
 
 func (tracker *flowTracker) handleTrace(locked bool, trace tracing.ITrace, notify bool, reachedNode bool) (bool, bool, bool) {
 	trace = tracing.Unwrap(trace)
+	verifAt("or.tracker.trace")
 	if !locked {
 		// Lock tracker records until messages are drained
 		tracker.lock.Lock()
